@@ -95,15 +95,15 @@ pub struct Case {
 
 // ---- Raw: arbitrary bytes + attachments through the public API ---------------------------------
 
-enum AttReal {
+pub enum AttReal {
     Tx(IpcSender<Node>),
     Rx(IpcReceiver<Node>),
     Shm(IpcSharedMemory),
 }
 
-struct Raw {
-    bytes: Vec<u8>,
-    atts: Vec<AttReal>,
+pub struct Raw {
+    pub bytes: Vec<u8>,
+    pub atts: Vec<AttReal>,
 }
 
 impl<'de> Deserialize<'de> for Raw {
